@@ -46,6 +46,11 @@ def fam_ns(prop, kset, n_prog, n_ops, names=None, salt=0, **kw):
 CS = {"K1": 512, "K1b": 512, "K2": 1024, "K3": 512, "K4": 4096, "K4b": 4096, "K5": 512, "K5b": 1024, "K6": 65536}
 
 
+def half(q, t):
+    """thorough sizes of the two slowest checks (C05, C14) are halved so that they finish in about half an hour on 16 cores"""
+    return scale(q, max(q, t // 2))
+
+
 def via_entries(progs, rng, p=0.3):
     """some handles come from DirEntry::to_file()/to_dir() of the listed entry instead of open_file()/open_dir() (same meaning);
     one program in eight runs on a storage that transfers fewer bytes than asked (legal for Read/Write, invisible above the library)"""
@@ -443,26 +448,26 @@ def c05():
     t0 = time.time()
     wd = workdir("C05")
     res = []
-    res.append(("fill", core.campaign("fill", fam_fill("C05", ["K1", "K1b", "K2"], scale(12, 120)), wd)))
-    res.append(("ns", core.campaign("ns", fam_ns("C05", ["K1", "K5"], scale(15, 150), 50, stats_p=0.10), wd)))
-    res.append(("io", core.campaign("io", fam_io("C05", ["K1b", "K5"], scale(10, 100), 50), wd)))
+    res.append(("fill", core.campaign("fill", fam_fill("C05", ["K1", "K1b", "K2"], half(12, 120)), wd)))
+    res.append(("ns", core.campaign("ns", fam_ns("C05", ["K1", "K5"], half(15, 150), 50, stats_p=0.10), wd)))
+    res.append(("io", core.campaign("io", fam_io("C05", ["K1b", "K5"], half(10, 100), 50), wd)))
     rng = rng_for("C05", 7)
-    sess = [gen.first_mutation_program(rng, "c05-first-%s-%d" % (k, i), gen.K(k), CS[k]) for k in ("K5", "K5b", "K1b") for i in range(scale(4, 40))]
-    sess += [gen.with_remounts(p, rng, 3) for p in fam_fill("C05", ["K5"], scale(4, 40), salt=3) + fam_ns("C05", ["K5", "K5b"], scale(6, 60), 50, salt=3)]
-    for i in range(scale(6, 60)):
+    sess = [gen.first_mutation_program(rng, "c05-first-%s-%d" % (k, i), gen.K(k), CS[k]) for k in ("K5", "K5b", "K1b") for i in range(half(4, 40))]
+    sess += [gen.with_remounts(p, rng, 3) for p in fam_fill("C05", ["K5"], half(4, 40), salt=3) + fam_ns("C05", ["K5", "K5b"], half(6, 60), 50, salt=3)]
+    for i in range(half(6, 60)):
         vol, cs = gen.end_of_table_volume(rng, rng.choice([12, 16, 32]))
         sess.append(gen.fill_program(rng, "c05-eot-%d" % i, {"vol": vol}, cs, rounds=1, chunk_clusters=(1, 2), use_dirs=False))
     res.append(("sessions", core.campaign("sessions", sess, wd)))
     # FAT16 / FAT32 volumes with only a handful of free clusters: out-of-space answers of every table width
     nf = []
-    for i in range(scale(6, 60)):
+    for i in range(half(6, 60)):
         vol, cs = gen.nearly_full_volume(rng, [16, 32, 12][i % 3])
         nf.append(gen.fill_program(rng, "c05-nearfull-%d" % i, {"vol": vol}, cs, rounds=2, chunk_clusters=(1, 3), use_dirs=(i % 2 == 0)))
     res.append(("nearly-full", core.campaign("nearly-full", nf, wd)))
     # volumes written by other implementations: reserved high bits in used and in free FAT32 entries, no usable FSInfo count (or dirty),
     # so that the count comes from a scan of the table
     frg = []
-    for i in range(scale(10, 100)):
+    for i in range(half(10, 100)):
         vol, cs = small_foreign(rng, 32)
         vol["hi"] = "pattern"
         vol["free_hi"] = rng.choice([0xC, 0xF, 0x1])
@@ -480,7 +485,7 @@ def c05():
         frg.append({"id": "c05-foreign-%d" % i, "cfg": {"vol": vol}, "ops": ops, "origin": "foreign-count"})
     res.append(("foreign", core.campaign("foreign", frg, wd)))
     # a FAT32 tree that lives above cluster 65535: files emptied, removed, directories moved; statistics after each step
-    high = [gen.foreign_high_program(rng, "c05-high-%d" % i) for i in range(scale(6, 60))]
+    high = [gen.foreign_high_program(rng, "c05-high-%d" % i) for i in range(half(6, 60))]
     res.append(("foreign-high", core.campaign("foreign-high", high, wd)))
     core.finish("C05", LEVEL, res, mc_layer_b(wd), t0,
                 "fill-to-full / delete-all cycles on tiny volumes plus mixed programs with statistics probes; TLC compares the reported count with the "
@@ -619,11 +624,11 @@ def c14():
     rng = rng_for("C14", 0)
     progs = []
     for kname in ["K1b", "K2", "K5"] + (["K3", "K4b"] if core.tier() == "thorough" else []):
-        for i in range(scale(12, 120)):
+        for i in range(half(12, 120)):
             progs.append(gen.crash_program(rng, "crash-%s-%d" % (kname, i), gen.K(kname), CS[kname]))
     res = [("crash", core.campaign("crash", progs, wd))]
     # the same kind of histories with the device handed to the library as a std::io object behind StdIoWrapper (what most users do)
-    std = [gen.crash_program(rng, "crash-std-%s-%d" % (k, i), gen.K(k), CS[k]) for k in ("K1b", "K5") for i in range(scale(10, 100))]
+    std = [gen.crash_program(rng, "crash-std-%s-%d" % (k, i), gen.K(k), CS[k]) for k in ("K1b", "K5") for i in range(half(10, 100))]
     res.append(("crash-stdio", core.campaign("crash-stdio", std, wd, feat="refstd")))
     core.finish("C14", "fault_enumeration", res, mc_durable(wd), t0,
                 "histories with flush/close points followed by unrelated activity; for every prefix of the device write log after the first flush the "
